@@ -33,8 +33,10 @@ impl Display for Variable {
     fn fmt(&self, f: &mut std::fmt::Formatter<'_>) -> std::fmt::Result {
         match self {
             Variable::Variable(name) => {
-                if name.contains("_") {
-                    //if it's a variable to be escaped
+                //escaped only when it would otherwise read as a compound variable:
+                //leading underscores belong to a plain name
+                let plain = name.trim_start_matches('$').trim_start_matches('_');
+                if plain.contains('_') || !plain.starts_with(char::is_alphabetic) {
                     write!(f, "\\{}", name)
                 } else {
                     write!(f, "{}", name)
